@@ -28,7 +28,9 @@ RULE = ("exhaustive over all multisets of <= 4 ballots (every partial ranking, b
         "also 4 candidates; sent to the driver as weighted signatures) built so that two different true assertions "
         "contradicting a binding alternative order have difficulties within a relative 1e-5 of each other, the cheaper "
         "one being the optimum (70%: the cheaper one is evaluated at a leaf of the search tree, the other at an "
-        "ancestor); non-trivial = >= 3 candidates (empty results included: they exercise the 'audit not possible' exits); distinct = distinct canonical input")
+        "ancestor); optional arguments on the random profiles: log=True (1 in 5; stream and stdout captured; the result "
+        "must not change) and a positive allowed gap agap (1 in 4; 1e-9 .. 1e4; the driver evaluates the same float test; "
+        "the branch tag records whether the early exit changed the result); non-trivial = >= 3 candidates (empty results included: they exercise the 'audit not possible' exits); distinct = distinct canonical input")
 EXHAUSTIVE = {"quick": False, "thorough": False}
 CONTEST = "1"
 FUEL = 2000000
@@ -205,7 +207,24 @@ def run_impl(case):
     from shangrla.raire.raire import compute_raire_assertions
     from shangrla.raire.raire_utils import NEBAssertion, NENAssertion
     contest, cvrs = build_inputs(case)
-    res = compute_raire_assertions(contest, cvrs, ident(case)(case["winner"]), asn_of(case["asn"]), False)
+    kw = {}
+    if case.get("agap"):
+        kw["agap"] = float(case["agap"])
+    if case.get("log"):
+        # `log=True` prints the search to `stream` (and one line per iteration to stdout, L259); it must not change the result
+        import io, contextlib
+        sink = io.StringIO()
+        with contextlib.redirect_stdout(io.StringIO()):
+            res = compute_raire_assertions(contest, cvrs, ident(case)(case["winner"]), asn_of(case["asn"]), True,
+                                           stream=sink, **kw)
+    else:
+        res = compute_raire_assertions(contest, cvrs, ident(case)(case["winner"]), asn_of(case["asn"]), False, **kw)
+    nogap = None
+    if case.get("agap"):
+        # for the evidence only: did the early exit change the run?
+        contest0, cvrs0 = build_inputs(case)
+        r0 = compute_raire_assertions(contest0, cvrs0, ident(case)(case["winner"]), asn_of(case["asn"]), False)
+        nogap = sorted((type(a).__name__, str(a.winner), str(a.loser), a.difficulty) for a in r0 if a is not None)
     out = []
     typ = int if case.get("ids") == "int" else str
 
@@ -222,7 +241,11 @@ def run_impl(case):
                     "vw": int(a.votes_for_winner), "vl": int(a.votes_for_loser), "d": float(a.difficulty),
                     "ro": sorted([[s_(c) for c in t] for t in a.rules_out]),
                     "cn": a.contest if isinstance(a.contest, str) else repr(type(a.contest))})
-    return {"st": "ok", "as": out}
+    r = {"st": "ok", "as": out}
+    if nogap is not None:
+        r["gap_changed"] = nogap != sorted((("NEBAssertion" if a["t"] == "NEB" else "NENAssertion"), a["w"], a["l"], a["d"])
+                                           for a in out if a is not None)
+    return r
 
 
 _CACHE = {}      # case key -> implementation result
@@ -282,6 +305,8 @@ def request(case):
     sigs = [[None if r is None else [[c, i] for i, c in enumerate(r)], n] for r, n in case["sigs"]]
     a = {"cands": case["cands"], "winner": case["winner"], "tot": case["tot"], "outcome": case["outcome"],
          "asn": case["asn"], "fuel": FUEL}
+    if case.get("agap"):
+        a["agap"] = struct.unpack("<Q", struct.pack("<d", float(case["agap"])))[0]     # the bits of the float64
     if ncards(case) > BIG:
         a["sigs"] = sigs
     else:
@@ -323,6 +348,10 @@ def signature(case, ir):
     n = len(case["cands"])
     res = ir["as"]
     hint = "nohint" if not case["outcome"] else "hint"
+    if case.get("log"):
+        hint += ";log"
+    if case.get("agap"):
+        hint += ";agap:" + ("changed" if ir.get("gap_changed") else "same")
     if not res:
         return ("trivial:" if n < 3 else "") + f"empty;n={n};{case['asn']};{hint}"
     kinds = {a["t"] for a in res if a}
@@ -367,6 +396,17 @@ def corpus():
          "winner": "3", "tot": 30, "outcome": [], "asn": "bp"},
         {"cands": ["1", "2", "3", "23"], "sigs": [[["3", "1"], 13], [["2", "23", "3"], 12], [["23", "3", "1"], 5]],
          "winner": "3", "tot": 30, "outcome": ["1", "23", "2", "3"], "asn": "cp", "ids": "int"},
+        # a positive allowed gap (the contest of Props/C04.lean `CEx4`): with agap = 5 the search stops early and
+        # returns a costlier (largest difficulty 10 instead of 7.5) but still sufficient set; with 0.5 it does not
+        {"cands": ["0", "1", "2", "3"], "sigs": [[["0", "1", "2", "3"], 12], [["1", "2", "0"], 6], [["2", "3", "1"], 5],
+                                                 [["3", "2", "1", "0"], 4], [["2", "0"], 3]],
+         "winner": "2", "tot": 30, "outcome": [], "asn": "cp", "agap": 5.0},
+        {"cands": ["0", "1", "2", "3"], "sigs": [[["0", "1", "2", "3"], 12], [["1", "2", "0"], 6], [["2", "3", "1"], 5],
+                                                 [["3", "2", "1", "0"], 4], [["2", "0"], 3]],
+         "winner": "2", "tot": 30, "outcome": [], "asn": "cp", "agap": 0.5, "log": True},
+        {"cands": ["0", "1", "2", "3"], "sigs": [[["0", "1", "2", "3"], 12], [["1", "2", "0"], 6], [["2", "3", "1"], 5],
+                                                 [["3", "2", "1", "0"], 4], [["2", "0"], 3]],
+         "winner": "2", "tot": 30, "outcome": ["3", "1", "0", "2"], "asn": "bp", "log": True},
         # a contest of state-wide size whose optimum is decided by one vote in a margin of ~1.4e5: the order B,A,C is
         # contradicted by NEN(B>C | nobody eliminated) with margin M+1 (at the leaf) and by NEB(A>C) with margin M
         # (at its ancestor [A,C]); relative gap of the two difficulties 1/M < 1e-5
@@ -452,6 +492,31 @@ def pick_ids(rng, nc):
     return cands, ("int" if style == "digits" and rng.chance(0.3) else None)
 
 
+def with_options(rng, case):
+    """optional arguments of compute_raire_assertions: `log=True` (1 case in 5) and a positive allowed gap `agap`
+    (1 in 4): half of them on the scale of the case's own difficulties -- a multiple of the distance between the
+    optimum and another value among the cheapest-true-assertion difficulties of the alternative orders, where the
+    early exit has a chance to fire before the search is over -- the rest from 1e-9 to 1e4"""
+    if rng.chance(0.2):
+        case["log"] = True
+    if rng.chance(0.25):
+        g = None
+        if rng.chance(0.6) and len(case["cands"]) <= 5:
+            wb = ballots_of(case)
+            asn = asn_of(case["asn"])
+            ds = sorted({best_true_difficulty(case, wb, pi, asn) for pi in alt_orders(case["cands"], case["winner"])})
+            ds = [d for d in ds if d != math.inf]
+            if len(ds) >= 2:
+                g = (ds[-1] - rng.choice(ds[:-1])) * rng.choice([0.5, 1.0, 1.0, 1.5, 3.0])
+            elif ds:
+                g = ds[-1] * rng.choice([0.1, 0.5, 1.0])
+        if not g or not (g > 0) or g == math.inf:
+            g = rng.choice([1e-9, 0.01, 0.1, 0.25, 0.5, 1.0, 1.5, 2.0, 3.0, 5.0, 10.0, 30.0, 100.0, 1e4,
+                            round(rng.random() * 4, 3) or 0.5])
+        case["agap"] = float(g)
+    return case
+
+
 def gen_random(rng):
     nc = rng.choice([2, 3, 3, 4, 4, 4, 5, 5, 5, 6, 6])
     cands, ids = pick_ids(rng, nc)
@@ -498,6 +563,7 @@ def gen_random(rng):
             "outcome": pick_hint(rng, cands, wb), "asn": rng.choice(["cp", "bp"])}
     if ids:
         case["ids"] = ids
+    with_options(rng, case)
     return case
 
 
@@ -646,6 +712,15 @@ def _oracle_c15(case, ir):
     got = max(a["d"] for a in res)
     if opt == math.inf:
         return None  # no audit possible: C04's business
+    if case.get("agap"):
+        # C15 is stated for zero allowed gap.  With agap > 0 the code stops once (largest estimate on the frontier) -
+        # (lower bound) <= agap; the largest returned difficulty then exceeds the optimum by at most agap
+        # (Lean: C15.raire_near_optimal_gap), and can never be below it
+        g = float(case["agap"])
+        if got > opt + g + TOL * max(1.0, abs(opt)) or got < opt - TOL * max(1.0, abs(opt)):
+            return {"what": f"agap={g!r}: largest difficulty returned {got!r}, least possible {opt!r}: not within "
+                            f"[opt, opt + agap] (hardest alternative order {list(worst)})"}
+        return None
     if abs(got - opt) > TOL * max(1.0, abs(opt)):
         return {"what": f"largest difficulty returned {got!r}, least possible {opt!r} "
                         f"(hardest alternative order {list(worst)})"}
